@@ -14,7 +14,7 @@
        replaces its record (one id-keyed map), the next retransmission is forwarded again     KF_C08_cross_ack
    Outside these the exactly-once clause is proved for all histories (C08_modulo_findings). *)
 From MV Require Import Base.Val Session.Pkt Session.Inflight Session.InflightProofs Session.QosSpecs
-  Session.QosProofs Session.QosWitness.
+  Session.QosProofs Session.QosOrder Session.QosLive Session.QosSound Session.QosWitness.
 Open Scope N_scope.
 
 (* Exactly once.  From any well-formed state (every reachable state is one: run_wf) with a session that
@@ -30,6 +30,20 @@ Theorem C08_modulo_findings : forall c s pid uid dup now orc0 h,
   quiet pid uid h ->
   count_fwd uid (concat (snd (run c s ((InPublish 2 pid dup uid now, orc0) :: h)))) = 1%nat.
 Proof. exact exactly_once. Qed.
+
+(* The same over a WHOLE history from the start: [pre] is anything that does not publish message uid (and leads to a
+   connected persistent session with quota left and no open exchange under pid), then the first PUBLISH, then the open
+   exchange h1 as above, then [tail]: whatever follows the end of the exchange (the client's PUBREL, ...) without
+   publishing uid again.  The forwards of uid in the entire output trace number exactly one. *)
+Theorem C08_once : forall c pid uid dup now orc0 pre h1 tail,
+  cfg_ok c -> (0 <= now)%Z -> hist_ok pre ->
+  (forall o orc, In (o, orc) pre -> no_uid uid o) ->
+  (forall o orc, In (o, orc) tail -> no_uid uid o) ->
+  let s := fst (run c init_st pre) in
+  persistent s -> s_conn s = true -> (s_recvq s =? 0)%Z = false -> retrans s pid = false ->
+  quiet pid uid h1 ->
+  count_fwd uid (concat (snd (run c init_st (pre ++ ((InPublish 2 pid dup uid now, orc0) :: h1) ++ tail)))) = 1%nat.
+Proof. exact once_whole. Qed.
 
 (* every state reached by any history under any oracle is well-formed *)
 Theorem C08_reachable_wf : forall c, cfg_ok c -> forall h s, hist_ok h -> wf c s -> wf c (fst (run c s h)).
@@ -79,6 +93,7 @@ Proof.
 Qed.
 
 Print Assumptions C08_modulo_findings.
+Print Assumptions C08_once.
 Print Assumptions C08_reachable_wf.
 Print Assumptions C08_retransmission_answered_partial.
 Print Assumptions C08_refuted_retransmit.
